@@ -78,7 +78,7 @@ func helpOutput(node *programTree, sections ...HelpSection) string {
 			helpTxt += "\n"
 		case HelpSynopsis:
 			commands := []string{}
-			for _, command := range node.ChildCommands {
+			for _, command := range node.sortedChildCommands() {
 				if command.Name == node.HelpCommandName {
 					continue
 				}
@@ -88,7 +88,7 @@ func helpOutput(node *programTree, sections ...HelpSection) string {
 			helpTxt += "\n"
 		case HelpCommandList:
 			m := make(map[string]string)
-			for _, command := range node.ChildCommands {
+			for _, command := range node.sortedChildCommands() {
 				if command.Name == node.HelpCommandName {
 					continue
 				}
@@ -170,7 +170,7 @@ func (gopt *GetOpt) HelpCommand(name string, fns ...ModifyFn) {
 
 func runHelp(ctx context.Context, opt *GetOpt, args []string) error {
 	if len(args) > 0 {
-		for _, command := range opt.programTree.Parent.ChildCommands {
+		for _, command := range opt.programTree.Parent.sortedChildCommands() {
 			if command.Name == args[0] {
 				fmt.Fprint(Writer, helpOutput(command))
 				return ErrorHelpCalled
